@@ -194,6 +194,9 @@ var worldSeq atomic.Int64
 // world = one runtime + one guest instance + one private host tree (or MapFS) for one mount kind.
 type world struct {
 	kind     int
+	cross    bool   // a writable WithDirMount(rwDir, "/rw") is preopened first (fd 3); the immutable mount is fd 4
+	rwDir    string
+	pre      uint64 // descriptor of the immutable mount's root
 	tmpRoot  string
 	base     string // sandbox directory (host kinds)
 	mapfs    fstest.MapFS
@@ -213,8 +216,14 @@ type world struct {
 
 var bg = context.Background()
 
-func newWorld(kind int, tmpRoot string) *world {
-	w := &world{kind: kind, tmpRoot: tmpRoot}
+func newWorld(kind int, tmpRoot string, cross bool) *world {
+	w := &world{kind: kind, tmpRoot: tmpRoot, cross: cross, pre: preFD}
+	if cross {
+		w.pre = preFD + 1
+		w.rwDir = filepath.Join(tmpRoot, fmt.Sprintf("rw%d", worldSeq.Add(1)))
+		must(os.Mkdir(w.rwDir, 0o755))
+		w.resetRW()
+	}
 	w.rt = wazero.NewRuntimeWithConfig(bg, wazero.NewRuntimeConfigInterpreter())
 	if _, err := wasi_snapshot_preview1.Instantiate(bg, w.rt); err != nil {
 		fw.Fatalf("wasi: %v", err)
@@ -241,6 +250,9 @@ func (w *world) freshTree() {
 		must(os.Mkdir(w.base, 0o755))
 		makeTree(w.base)
 	}
+	if w.cross {
+		w.resetRW()
+	}
 	w.instantiate()
 	w.baseline = w.snapshot()
 	if w.kind != kMapFS {
@@ -256,18 +268,34 @@ func (w *world) freshTree() {
 	w.baseFP = append([]byte{}, w.fingerprint()...)
 }
 
+// resetRW restores the content of the writable neighbour mount (it is legitimately changed by words).
+func (w *world) resetRW() {
+	ents, err := os.ReadDir(w.rwDir)
+	must(err)
+	for _, e := range ents {
+		must(os.RemoveAll(filepath.Join(w.rwDir, e.Name())))
+	}
+	must(os.WriteFile(filepath.Join(w.rwDir, "w.txt"), []byte("writable"), 0o644))
+	must(os.Mkdir(filepath.Join(w.rwDir, "wd"), 0o755))
+}
+
 func (w *world) instantiate() {
 	if w.mod != nil {
 		w.mod.Close(bg)
 	}
 	fc := wazero.NewFSConfig()
+	guest := "/"
+	if w.cross {
+		fc = fc.WithDirMount(w.rwDir, "/rw")
+		guest = "/ro"
+	}
 	switch w.kind {
 	case kRODir:
-		fc = fc.WithReadOnlyDirMount(filepath.Join(w.base, "mnt"), "/")
+		fc = fc.WithReadOnlyDirMount(filepath.Join(w.base, "mnt"), guest)
 	case kDirFS:
-		fc = fc.WithFSMount(os.DirFS(filepath.Join(w.base, "mnt")), "/")
+		fc = fc.WithFSMount(os.DirFS(filepath.Join(w.base, "mnt")), guest)
 	case kMapFS:
-		fc = fc.WithFSMount(w.mapfs, "/")
+		fc = fc.WithFSMount(w.mapfs, guest)
 	}
 	mod, err := w.rt.InstantiateModule(bg, w.code, wazero.NewModuleConfig().WithName("").WithFSConfig(fc))
 	if err != nil {
@@ -295,6 +323,9 @@ func (w *world) close() {
 	if w.base != "" {
 		os.RemoveAll(w.base)
 	}
+	if w.rwDir != "" {
+		os.RemoveAll(w.rwDir)
+	}
 }
 
 func (w *world) call(name string, args ...uint64) uint32 {
@@ -315,11 +346,14 @@ func (w *world) putPath(at uint32, s string) (uint64, uint64) {
 
 // ---------------------------------------------------------------- steps
 
-// step is one WASI call. Fd is symbolic: "" / "pre" = the preopened mount root (3), "new" = the first
-// descriptor opened by this word, "new2" = the second, "ren" = target of fd_renumber (9), "bad" = 77.
+// step is one WASI call. Fd is symbolic: "" / "pre" = the preopened root of the immutable mount, "new" =
+// the first descriptor opened by this word, "new2" = the second, "ren" = target of fd_renumber (9),
+// "rw" = root of the writable neighbour mount (cross worlds only), "bad" = 77. Fd2 is the second
+// descriptor of path_rename / path_link (default: same as Fd).
 type step struct {
 	Op      string `json:"op"`
 	Fd      string `json:"fd,omitempty"`
+	Fd2     string `json:"fd2,omitempty"`
 	Path    string `json:"path,omitempty"`
 	Path2   string `json:"path2,omitempty"`
 	Lookup  uint16 `json:"lookup,omitempty"`
@@ -338,6 +372,9 @@ func (s step) String() string {
 		o += fmt.Sprintf(",%q,lookup=%d,oflags=%s,fdflags=%s,rights=%s", s.Path, s.Lookup, oflagNames(s.Oflags), fdflagNames(s.Fdflags), rightsName(s.Rights))
 	case "path_rename", "path_link", "path_symlink":
 		o += fmt.Sprintf(",%q,%q", s.Path, s.Path2)
+		if s.Fd2 != "" {
+			o += ",fd2=" + s.Fd2
+		}
 		if s.Op == "path_link" {
 			o += fmt.Sprintf(",lookup=%d", s.Lookup)
 		}
@@ -411,6 +448,8 @@ func rightsName(r uint64) string {
 func (w *world) fd(sym string) uint64 {
 	switch sym {
 	case "", "pre":
+		return w.pre
+	case "rw":
 		return preFD
 	case "new":
 		if len(w.open) > 0 {
@@ -434,6 +473,10 @@ func (w *world) fd(sym string) uint64 {
 // exec performs one step and returns the WASI errno (or trapErr).
 func (w *world) exec(s step) uint32 {
 	fd := w.fd(s.Fd)
+	fd2 := fd
+	if s.Fd2 != "" {
+		fd2 = w.fd(s.Fd2)
+	}
 	at, mt := uint64(poisonTime.UnixNano()), uint64(poisonTime.UnixNano())
 	switch s.Op {
 	case "path_open":
@@ -504,11 +547,11 @@ func (w *world) exec(s step) uint32 {
 	case "path_rename":
 		p, n := w.putPath(mPath1, s.Path)
 		q, m := w.putPath(mPath2, s.Path2)
-		return w.call(s.Op, fd, p, n, fd, q, m)
+		return w.call(s.Op, fd, p, n, fd2, q, m)
 	case "path_link":
 		p, n := w.putPath(mPath1, s.Path)
 		q, m := w.putPath(mPath2, s.Path2)
-		return w.call(s.Op, fd, uint64(s.Lookup), p, n, fd, q, m)
+		return w.call(s.Op, fd, uint64(s.Lookup), p, n, fd2, q, m)
 	case "path_symlink": // Path2 = link target text, Path = where the link is created
 		q, m := w.putPath(mPath2, s.Path2)
 		p, n := w.putPath(mPath1, s.Path)
@@ -535,13 +578,13 @@ func (w *world) bufFiletype() byte {
 
 // preopenAlive: the mount root descriptor still answers fd_prestat_get.
 func (w *world) preopenAlive() bool {
-	return w.call("fd_prestat_get", preFD, mBuf) == 0
+	return w.call("fd_prestat_get", w.pre, mBuf) == 0
 }
 
 // readThrough opens p read-only through the mount and returns what fd_read delivers.
 func (w *world) readThrough(p string) (string, uint32) {
 	pp, n := w.putPath(mPath1, p)
-	if e := w.call("path_open", preFD, uint64(wasip1.LOOKUP_SYMLINK_FOLLOW), pp, n, 0, rRead, rRead, 0, mRes); e != 0 {
+	if e := w.call("path_open", w.pre, uint64(wasip1.LOOKUP_SYMLINK_FOLLOW), pp, n, 0, rRead, rRead, 0, mRes); e != 0 {
 		return "", e
 	}
 	nfd, _ := w.mem.ReadUint32Le(mRes)
